@@ -375,12 +375,28 @@ def _run(V, work, tier):
         selfcases = [c1, c2, c3]
     if not expect:
         raise MachineryError("no case suitable for the corruption self-test")
-    text = "".join(json.dumps(c, separators=(",", ":")) + "\n" for c in cases + selfcases)
     verdicts = {}
 
     def sink(rec):
         verdicts[rec["id"]] = rec
-    res = run_tlc(work, "Minify", "SPECIFICATION Spec\nCHECK_DEADLOCK FALSE\n", files={"mincases.ndjson": text}, timeout=3300, line_sink=sink)
+    # TLC gets the triples in portions of about 40 MB of JSON (the thorough tier's 490 MB at once exhausted its heap)
+    res = None
+    portion, size = [], 0
+    lines_ = [json.dumps(c, separators=(",", ":")) + "\n" for c in cases + selfcases]
+    for k, ln in enumerate(lines_):
+        portion.append(ln)
+        size += len(ln)
+        if size >= 40000000 or k == len(lines_) - 1:
+            r_ = run_tlc(work, "Minify", "SPECIFICATION Spec\nCHECK_DEADLOCK FALSE\n", files={"mincases.ndjson": "".join(portion)}, timeout=3300, line_sink=sink)
+            if r_.error or r_.violated:
+                raise MachineryError("TLC failed on Minify.tla: %s %s" % (r_.violated, (r_.error or "")[:400]))
+            if res is None:
+                res = r_
+            else:
+                res.distinct += r_.distinct
+                res.generated += r_.generated
+                res.wall += r_.wall
+            portion, size = [], 0
     V.tlc(res, "Minify: %d (source, minified, map) triples decided" % len(cases))
     if len(verdicts) != len(cases) + len(selfcases):
         raise MachineryError("Minify.tla decided %d of %d cases" % (len(verdicts), len(cases) + len(selfcases)))
